@@ -54,6 +54,18 @@ theorem sky2vec_pole (ra : ℝ) :
     sky2vec sky2angTheta ra (π / 2) = ⟨0, 0, 1⟩ ∧ sky2vec sky2angTheta ra (-(π / 2)) = ⟨0, 0, -1⟩ := by
   simp [sky2vec_eq_skyvec, skyvec]
 
+/-- RA wrap: `ra` and `ra + 2π` are the same point of the sphere … -/
+theorem sky2vec_ra_periodic (ra dec : ℝ) :
+    sky2vec sky2angTheta (ra + 2 * π) dec = sky2vec sky2angTheta ra dec := by
+  simp only [sky2vec_eq_skyvec, skyvec, Real.cos_add_two_pi, Real.sin_add_two_pi]
+
+/-- … and get the same `sky_within` answer from any region -/
+theorem sky_within_ra_periodic (H : Healpix) {m d : ℕ} (hd : d ≤ m) (D : Finset ℕ) (ra dec : ℝ) :
+    regionWithin H m d D false (ra + 2 * π) dec = regionWithin H m d D false ra dec := by
+  have e : skyvec (ra + 2 * π) dec = skyvec ra dec := by
+    simp only [skyvec, Real.cos_add_two_pi, Real.sin_add_two_pi]
+  rw [regionWithin_eq H hd, regionWithin_eq H hd, e]
+
 /-- angle between `sky2vec p` and `sky2vec q` = arccos of the spherical law of cosines -/
 theorem sky2vec_angle_cos (ra1 dec1 ra2 dec2 : ℝ) :
     angle (toE3 (sky2vec sky2angTheta ra1 dec1)) (toE3 (sky2vec sky2angTheta ra2 dec2))
@@ -334,6 +346,15 @@ theorem poly_excludes_beyond_partial (H : Healpix) (m : ℕ) (depth : Option ℕ
     regionWithin H m (clampDepth m depth) D false ra dec = false :=
   poly_excludes_far_partial H m depth pos D hD rac decc Rc ra dec hcap (by linarith)
 
+/-- list arguments / repeated `add_circles`: a region holding the union of two pixel sets answers
+    the disjunction — so every circle of a list is covered (`circle_contains_partial` for each), and
+    a position beyond `r + 3 pixel sizes` of every circle is outside -/
+theorem region_union (H : Healpix) {m d : ℕ} (hd : d ≤ m) (D1 D2 : Finset ℕ) (ra dec : ℝ) :
+    regionWithin H m d (D1 ∪ D2) false ra dec
+      = (regionWithin H m d D1 false ra dec || regionWithin H m d D2 false ra dec) := by
+  rw [regionWithin_eq H hd, regionWithin_eq H hd, regionWithin_eq H hd]
+  simp [Finset.mem_union]
+
 /-- the circumscribed circle of the vertices contains every edge (and, by iteration, the
     polygon): positive combinations of points of a cap of radius ≤ π/2 stay in the cap -/
 theorem circumcircle_contains_edge {a b c : E3} {R s t : ℝ} (ha : ‖a‖ = 1) (hb : ‖b‖ = 1)
@@ -341,6 +362,14 @@ theorem circumcircle_contains_edge {a b c : E3} {R s t : ℝ} (ha : ‖a‖ = 1)
     (hn : ‖s • a + t • b‖ = 1) (h1 : angle a c ≤ R) (h2 : angle b c ≤ R) :
     angle (s • a + t • b) c ≤ R :=
   cap_convex ha hb hc hR0 hR hs ht hn h1 h2
+
+/-- every point of the spherical convex hull of vertices lying on/in a circle of radius ≤ π/2
+    (a unit-norm non-negative combination of them) lies inside that circle -/
+theorem circumcircle_contains_hull {ι : Type} (s : Finset ι) (v : ι → E3) (w : ι → ℝ) {c : E3} {R : ℝ}
+    (hv : ∀ i ∈ s, ‖v i‖ = 1) (hc : ‖c‖ = 1) (hR0 : 0 ≤ R) (hR : R ≤ π / 2)
+    (hw : ∀ i ∈ s, 0 ≤ w i) (hn : ‖∑ i ∈ s, w i • v i‖ = 1) (h : ∀ i ∈ s, angle (v i) c ≤ R) :
+    angle (∑ i ∈ s, w i • v i) c ≤ R :=
+  cap_convex_sum s v w hv hc hR0 hR hw hn h
 
 /-! ## non-vacuity -/
 
